@@ -192,7 +192,9 @@ func zzC15ASM() {
 	tokenEP := zzURLAlphabet[vChoice("tokenEndpoint", 5)]
 	authEP := zzURLAlphabet[vChoice("authEndpoint", 3)]
 	jwks := zzURLAlphabet[[]int{0, 3, 5}[vChoice("jwks", 3)]]
-	found := vChoice("asmOutcome", 3) // 0 document at the first well-known URL, 1 404 everywhere, 2 server error
+	found := vChoice("asmOutcome", 3) // 0 a document at one of the well-known locations (404 at the others), 1 404 everywhere, 2 server error
+	docAt := vChoice("documentLocation", 2) // 0: /.well-known/oauth-authorization-server, 1: /.well-known/openid-configuration
+	docServed := false
 	env.asmDoc = func(u string) (*oauthex.AuthServerMeta, error) {
 		switch found {
 		case 1:
@@ -200,6 +202,14 @@ func zzC15ASM() {
 		case 2:
 			return nil, zzHTTPStatus(503)
 		}
+		here := 1
+		if strings.HasSuffix(u, "/.well-known/oauth-authorization-server") {
+			here = 0
+		}
+		if here != docAt {
+			return nil, zzHTTPStatus(404)
+		}
+		docServed = true
 		m := &oauthex.AuthServerMeta{Issuer: issuer, AuthorizationEndpoint: authEP, TokenEndpoint: tokenEP, JWKSURI: jwks}
 		switch pkce {
 		case 1:
@@ -230,6 +240,15 @@ func zzC15ASM() {
 	if found == 2 {
 		vAssert(err != nil && !fetcherCalled, "C15.server-error-aborts")
 	}
+	if docServed {
+		// a metadata document that was fetched and failed a check ends the attempt: no falling back to guessed
+		// endpoints as if the server had published nothing
+		trustworthy := (issuer == zzAS || issuer == zzAS+"/") && pkce == 2 && !scriptScheme && zzSafeOrEmpty(tokenEP) && zzSafeOrEmpty(authEP)
+		if !trustworthy {
+			vAssert(err != nil && !fetcherCalled, "C15.rejected-metadata-aborts-the-flow")
+			vReach("rejected")
+		}
+	}
 	if err != nil {
 		ts, _ := h.TokenSource(context.Background())
 		vAssert(ts == oauth2.TokenSource(initial), "C15.no-token-installed-after-failed-check")
@@ -237,6 +256,8 @@ func zzC15ASM() {
 	}
 	vReach("end")
 }
+
+func zzSafeOrEmpty(u string) bool { return u == "" || zzSafeURL(u) }
 
 func zzHTTPStatus(code int) error { return oauthex.ZzVerifStatusErr(code) }
 
